@@ -503,6 +503,50 @@ func checkC10(c *Ctx) {
 	if cl := c.fn("C10.6", lib, "RegistrationManager", "Cleanup"); cl != nil {
 		r.Check(len(callsIn(cl, shortIs("clearDetector"))) == 1, "C10.6", "Cleanup calls clearDetector", cl.Pos(), fnName(cl), "1 call", "Cleanup no longer sends the clear request")
 	}
+	// ---- C10.12 "carries that registration's ... registrant address": the address bytes of the delivered message are kept by
+	// reference (net.IP is a slice), so nothing the ingest path calls may write into an address it was handed - not even
+	// through To16(), which returns the same backing array for a 16-byte address
+	r.Rule("C10.12", "the ingest path writes into no address / byte slice it was handed", 1)
+	if root := c.fn("C10.12", lib, "RegistrationManager", "parseRegMessage"); root != nil {
+		seen := map[*ssa.Function]bool{}
+		var order []*ssa.Function
+		var visit func(g *ssa.Function, d int)
+		visit = func(g *ssa.Function, d int) {
+			if g == nil || seen[g] || g.Blocks == nil || d > 3 || g.Package() != root.Package() {
+				return
+			}
+			seen[g] = true
+			order = append(order, g)
+			eachInstr(g, func(in ssa.Instruction) {
+				if ci, ok := in.(ssa.CallInstruction); ok {
+					visit(ci.Common().StaticCallee(), d+1)
+				}
+			})
+		}
+		visit(root, 0)
+		nBad := 0
+		for _, g := range order {
+			hasIP := false
+			for _, prm := range g.Params {
+				if ts := typeShort(prm.Type()); ts == "net.IP" || ts == "[]byte" {
+					hasIP = true
+				}
+			}
+			if !hasIP {
+				continue
+			}
+			eachInstr(g, func(in ssa.Instruction) {
+				if w := writesInput(g, in); w != "" {
+					nBad++
+					r.Bad("C10.12", fnName(g)+": "+firstN(w, 60), in.Pos(), fnName(g), "a helper on the ingest path writes into the address bytes it was given ("+firstN(w, 60)+"): the registration keeps a reference to those bytes, so the registrant address announced to the detector is no longer the one that was delivered")
+				}
+			})
+		}
+		if nBad == 0 {
+			r.OK("C10.12", "parseRegMessage and its helpers leave the address bytes they are handed alone", root.Pos(), fmt.Sprintf("%d function(s) scanned", len(order)))
+		}
+	}
+
 	// ---- C10.11 an Update describes the registration that was used: updateInDetector is invoked by markActive only, with
 	// markActive's own registration (an Update built from another registration announces the wrong phantom, and a record
 	// flipped to used without an Update of its own is kept by the station for 6 h while the detector was asked for 10 min)
